@@ -18,6 +18,7 @@ from ..berp import Spec, KINDS, ALL
 from .. import tables as TB
 from .. import kinds as K
 
+MAX_DEPTH = 9          # the grammar is not recursive: GherkinDocument>Feature>Rule>ScenarioDefinition>Scenario>ExamplesDefinition>Examples>ExamplesTable
 SPEC = None
 T = None
 USES_LA = None
@@ -178,6 +179,9 @@ def exact_product(acc):
                             bad = 'start of unknown rule ' + e[1]
                             break
                         st.append((e[1], spec.rule_aut[e[1]][1]))
+                        if len(st) > MAX_DEPTH:
+                            bad = 'rules nested %d deep (%s): deeper than the grammar allows' % (len(st), [x[0] for x in st])
+                            break
                     elif e[0] == 'e':
                         if not st or st[-1][0] != e[1]:
                             bad = 'end_rule(%s) but innermost open rule is %s' % (e[1], st[-1][0] if st else None)
@@ -440,6 +444,9 @@ def state_bfs(acc, qmax, max_nodes=200000):
                 acc.violation('bfs-queue', case, 'after step %d queue holds lines %s, scanner has served %d lines' % (n + 1, list(qlines), reads))
             edges.add((k, c, snap))
             if not record:
+                continue
+            if len(snap[3]) > MAX_DEPTH:
+                acc.violation('bfs-nesting-depth', case, 'open rules nested deeper than the grammar allows: %s' % (snap[3],))
                 continue
             acc.trans.add((node[0], node[1], k, snap[0], snap[1]))
             if k == 'EOF':
